@@ -103,6 +103,16 @@ func (cfg *Config) VerifyConfig(schema base.LogSchema) error {
 		return fmt.Errorf(".serialization.environmentFields is unspecified")
 	}
 
+	for _, field := range cfg.Serialization.EnvironmentFields {
+		if _, err := schema.CreateFieldLocator(field); err != nil {
+			return fmt.Errorf(".serialization.environmentFields: %w", err)
+		}
+	}
+	for _, field := range cfg.Serialization.HiddenFields {
+		if _, err := schema.CreateFieldLocator(field); err != nil {
+			return fmt.Errorf(".serialization.hiddenFields: %w", err)
+		}
+	}
 	for field, rewriteConfig := range cfg.Serialization.RewriteFields {
 		if _, err := schema.CreateFieldLocator(field); err != nil {
 			return fmt.Errorf(".serialization.rewriteFields[%s]: Field is invalid: %w", field, err)
